@@ -35,7 +35,7 @@ def gen(rng, tier, i):
     elif r < 0.75: caps = {'default': 8, 'vec': None}
     else: caps = {'default': 64, 'vec': None}      # fault-free only
     return {'script': script, 'sims': sims, 'delays': wavegen.gen_delays(rng, skew=rng.choice(['wild', 'wild', 'mild', 'equal'])), 'caps': caps,
-            'batches': wavegen.gen_batches(rng, n_max=3, sims=sims, p_custom=0.7, p_k=0.0, p_time=0.0), 'actrl': None,
+            'batches': wavegen.gen_batches(rng, n_max=3, sims=sims, p_custom=0.7, p_k=0.2, p_time=0.0), 'actrl': None,
             'cfg': {'cls': rng.choice(['cpu', 'cpu', 'gpu']), 'c_reuse': rng.random() < 0.4, 'strip_forks': rng.random() < 0.4,
                     'sched': wavegen.gen_order_sched(rng), 'block': wavegen.gen_block(rng)},
             'poison': {'vals': [rng.choice([0, 1, 7, 40, float(wsim.TMIN), float(wsim.TMAX), float(wsim.TMAX_OVL)]) for _ in range(5)]} if rng.random() < 0.4 else None}
@@ -53,7 +53,9 @@ def execute(case):
         h, outs = wsim.run_config(built, case, cfg, res, monitors=())
         ovl = False
         for bno, o in enumerate(outs):
-            if not waveoracle.check_values(h, o, res, 'ovl-', label=f'capacity-faulted run batch {bno}: '): return res
+            kk = case['batches'][bno].get('k')      # a batch restricted to the first k lanes is judged on those lanes only; later batches on all lanes
+            if kk: res.fault('F-lanes-k')
+            if not waveoracle.check_values(h, o, res, 'ovl-', lanes=range(kk) if kk else None, label=f'capacity-faulted run batch {bno}: '): return res
             ovl = ovl or waveoracle.any_overflow(o)
         if ovl: res.probe('overflow_occurred'); res.nontrivial = True
         res.log.add('f', [wsim.crc(o['s'][3:8]) for o in outs])
@@ -61,7 +63,8 @@ def execute(case):
     h2, outs2 = wsim.run_config(built, case, dict(cfg, caps={'default': 64, 'vec': None}), res, monitors=())
     res.count('faultfree_runs')
     for bno, o in enumerate(outs2):
-        if not waveoracle.check_values(h2, o, res, 'ff-', label=f'ample-capacity run batch {bno}: '): return res
+        kk = case['batches'][bno].get('k')
+        if not waveoracle.check_values(h2, o, res, 'ff-', lanes=range(kk) if kk else None, label=f'ample-capacity run batch {bno}: '): return res
     res.log.add('a', [wsim.crc(o['s'][3:8]) for o in outs2])
     return res
 
